@@ -138,6 +138,46 @@ pub mod rc {
         pub bits2: BitVec<u32, Msb0>,
     }
 
+    #[derive(TypeInfo)]
+    pub struct GenBits<S: bitvec::store::BitStore + 'static, O: bitvec::order::BitOrder + 'static> {
+        pub bits: BitVec<S, O>,
+        pub v: Vec<BitVec<S, Lsb0>>,
+        pub w: (BitVec<u16, O>, S),
+    }
+
+    /// one level of `Identity`: which of these share a registry entry?
+    #[derive(TypeInfo)]
+    pub struct Ident<T> {
+        pub a: Box<T>,
+        pub b: Vec<Box<T>>,
+        pub c: Box<String>,
+        pub d: String,
+        pub e: Box<Vec<u8>>,
+        pub f: Vec<u8>,
+        pub g: Rc<Box<u8>>,
+        pub h: &'static str,
+        pub i: Box<str>,
+        pub j: (u8, PhantomData<u16>),
+        pub k: (u8, PhantomData<u32>),
+        pub l: Cow<'static, str>,
+        pub m: Vec<String>,
+        pub n: Vec<&'static str>,
+        pub o: VecDeque<u8>,
+        pub p: Option<Box<T>>,
+        pub q: Option<T>,
+        pub t: T,
+        pub r: Arc<[u8]>,
+        pub s: Box<Gen<u8, Box<u8>>>,
+        pub u: Gen<u8, u8>,
+    }
+
+    #[derive(TypeInfo)]
+    pub struct CompactUnit {
+        #[codec(compact)]
+        pub u: (),
+        pub cu: Compact<()>,
+    }
+
     pub trait Config {
         type Inner;
     }
@@ -182,6 +222,24 @@ pub mod rc {
     }
 }
 
+/// the same kinds of definitions written with path-qualified type names, as most of the
+/// Substrate code base does (`sp_std::vec::Vec<T>`, `codec::Compact<T>`)
+#[allow(dead_code)]
+pub mod rcq {
+    extern crate alloc;
+    use parity_scale_codec as codec;
+    use scale_info::TypeInfo;
+    use std as sp_std;
+
+    #[derive(TypeInfo)]
+    pub struct Qual<T> {
+        pub a: codec::Compact<u32>,
+        pub b: alloc::boxed::Box<T>,
+        pub c: sp_std::vec::Vec<(T, codec::Compact<u8>)>,
+        pub d: alloc::boxed::Box<sp_std::vec::Vec<u8>>,
+    }
+}
+
 // ---------------------------------------------------------------------------------------------
 // the mirrored model
 
@@ -191,6 +249,8 @@ fn p(n: &str) -> ParamDecl {
         skipped: false,
         config: false,
         compactable: false,
+        bitstore: false,
+        bitorder: false,
     }
 }
 fn named(name: &str, ty: Ty) -> FieldDef {
@@ -249,6 +309,10 @@ pub const ASSOCSKIP: usize = 16;
 pub const IPLAIN: usize = 17;
 pub const IUSES: usize = 18;
 pub const GENCOMP: usize = 19;
+pub const GENBITS: usize = 20;
+pub const COMPACTUNIT: usize = 21;
+pub const QUAL: usize = 22;
+pub const IDENT: usize = 23;
 
 pub fn model_defs() -> Vec<Def> {
     use Prim::*;
@@ -278,6 +342,8 @@ pub fn model_defs() -> Vec<Def> {
         skipped,
         config: true,
         compactable: false,
+        bitstore: false,
+        bitorder: false,
     };
     vec![
         sdef(
@@ -287,7 +353,7 @@ pub fn model_defs() -> Vec<Def> {
             Fields::Named(vec![
                 named("a", pr(U8)),
                 plain_b,
-                named("c", Ty::Ptr(PtrKind::Ref, bx(pr(Str)))),
+                named("c", Ty::Ptr(PtrKind::Ref, bx(Ty::StrSlice))),
                 named("d", pr(Bool)),
                 named("e", pr(Char)),
                 named("f", pr(I128)),
@@ -330,6 +396,8 @@ pub fn model_defs() -> Vec<Def> {
                     skipped: true,
                     config: false,
                     compactable: false,
+                    bitstore: false,
+                    bitorder: false,
                 },
             ],
             vec![],
@@ -393,7 +461,7 @@ pub fn model_defs() -> Vec<Def> {
                     "e",
                     Ty::Ptr(PtrKind::Box, bx(Ty::Seq(SeqKind::Slice, bx(pr(U16))))),
                 ),
-                named("f", Ty::Cow(bx(pr(Str)))),
+                named("f", Ty::Cow(bx(Ty::StrSlice))),
                 named("g", Ty::Cow(bx(Ty::Seq(SeqKind::Slice, bx(pr(U8)))))),
                 named("h", Ty::Ptr(PtrKind::Ref, bx(pr(U32)))),
             ]),
@@ -511,6 +579,8 @@ pub fn model_defs() -> Vec<Def> {
                     skipped: false,
                     config: false,
                     compactable: true,
+                    bitstore: false,
+                    bitorder: false,
                 }],
                 vec![],
                 Fields::Named(vec![
@@ -520,6 +590,92 @@ pub fn model_defs() -> Vec<Def> {
                 ]),
             )
         },
+        sdef(
+            path("GenBits"),
+            vec![
+                ParamDecl { bitstore: true, ..p("S") },
+                ParamDecl { bitorder: true, ..p("O") },
+            ],
+            vec![],
+            Fields::Named(vec![
+                named("bits", Ty::BitVecP(bx(Ty::Param(0)), bx(Ty::Param(1)))),
+                named(
+                    "v",
+                    Ty::Seq(SeqKind::Vec, bx(Ty::BitVecP(bx(Ty::Param(0)), bx(Ty::BitOrder(false))))),
+                ),
+                named(
+                    "w",
+                    Ty::Tuple(vec![Ty::BitVecP(bx(pr(U16)), bx(Ty::Param(1))), Ty::Param(0)]),
+                ),
+            ]),
+        ),
+        {
+            let mut u = named("u", Ty::Tuple(vec![]));
+            u.compact_attr = true;
+            sdef(
+                path("CompactUnit"),
+                vec![],
+                vec![],
+                Fields::Named(vec![u, named("cu", Ty::Compact(bx(Ty::Tuple(vec![]))))]),
+            )
+        },
+        sdef(
+            BASE[..2].iter().map(|s| s.to_string()).chain(["rcq".to_string(), "Qual".to_string()]).collect(),
+            vec![p("T")],
+            vec![],
+            Fields::Named(vec![
+                named("a", Ty::Compact(bx(pr(U32)))),
+                named("b", Ty::Ptr(PtrKind::Box, bx(Ty::Param(0)))),
+                named(
+                    "c",
+                    Ty::Seq(SeqKind::Vec, bx(Ty::Tuple(vec![Ty::Param(0), Ty::Compact(bx(pr(U8)))]))),
+                ),
+                named("d", Ty::Ptr(PtrKind::Box, bx(Ty::Seq(SeqKind::Vec, bx(pr(U8)))))),
+            ]),
+        ),
+        {
+            let b = |t: Ty| Ty::Ptr(PtrKind::Box, bx(t));
+            let v = |t: Ty| Ty::Seq(SeqKind::Vec, bx(t));
+            let t = || Ty::Param(0);
+            sdef(
+                path("Ident"),
+                vec![p("T")],
+                vec!["one level of `Identity`: which of these share a registry entry?"],
+                Fields::Named(vec![
+                    named("a", b(t())),
+                    named("b", v(b(t()))),
+                    named("c", b(pr(Str))),
+                    named("d", pr(Str)),
+                    named("e", b(v(pr(U8)))),
+                    named("f", v(pr(U8))),
+                    named("g", Ty::Ptr(PtrKind::Rc, bx(b(pr(U8))))),
+                    named("h", Ty::Ptr(PtrKind::Ref, bx(Ty::StrSlice))),
+                    named("i", b(Ty::StrSlice)),
+                    named("j", Ty::Tuple(vec![pr(U8), Ty::Phantom(bx(pr(U16)))])),
+                    named("k", Ty::Tuple(vec![pr(U8), Ty::Phantom(bx(pr(U32)))])),
+                    named("l", Ty::Cow(bx(Ty::StrSlice))),
+                    named("m", v(pr(Str))),
+                    named("n", v(Ty::Ptr(PtrKind::Ref, bx(Ty::StrSlice)))),
+                    named("o", Ty::Seq(SeqKind::VecDeque, bx(pr(U8)))),
+                    named("p", Ty::Opt(bx(b(t())))),
+                    named("q", Ty::Opt(bx(t()))),
+                    named("t", t()),
+                    named("r", Ty::Ptr(PtrKind::Arc, bx(Ty::Seq(SeqKind::Slice, bx(pr(U8)))))),
+                    named("s", b(Ty::Def(GEN, vec![pr(U8), b(pr(U8))]))),
+                    named("u", Ty::Def(GEN, vec![pr(U8), pr(U8)])),
+                ]),
+            )
+        },
+    ]
+}
+
+/// roots of the path-qualified corpus (`Program::name_style == 1`)
+pub fn roots_q() -> Vec<(MetaType, Ty)> {
+    use Prim::*;
+    vec![
+        (MetaType::new::<rcq::Qual<u8>>(), Ty::Def(QUAL, vec![pr(U8)])),
+        (MetaType::new::<rcq::Qual<Vec<u8>>>(), Ty::Def(QUAL, vec![Ty::Seq(SeqKind::Vec, bx(pr(U8)))])),
+        (MetaType::new::<rcq::Qual<rc::Unit>>(), Ty::Def(QUAL, vec![Ty::Def(UNIT, vec![])])),
     ]
 }
 
@@ -565,6 +721,33 @@ pub fn roots() -> Vec<(MetaType, Ty)> {
         (MetaType::new::<[Wrap; 4]>(), Ty::Array(4, bx(d(WRAP, vec![])))),
         (MetaType::new::<GenComp<u32>>(), d(GENCOMP, vec![pr(U32)])),
         (MetaType::new::<GenComp<Wrap>>(), d(GENCOMP, vec![d(WRAP, vec![])])),
+        (
+            MetaType::new::<GenBits<u8, bitvec::order::Lsb0>>(),
+            d(GENBITS, vec![pr(U8), Ty::BitOrder(false)]),
+        ),
+        (
+            MetaType::new::<GenBits<u64, bitvec::order::Msb0>>(),
+            d(GENBITS, vec![pr(U64), Ty::BitOrder(true)]),
+        ),
+        (
+            MetaType::new::<GenBits<u16, bitvec::order::Lsb0>>(),
+            d(GENBITS, vec![pr(U16), Ty::BitOrder(false)]),
+        ),
+        (MetaType::new::<CompactUnit>(), d(COMPACTUNIT, vec![])),
+        (MetaType::new::<Ident<u8>>(), d(IDENT, vec![pr(U8)])),
+        (
+            MetaType::new::<Ident<Vec<u8>>>(),
+            d(IDENT, vec![Ty::Seq(SeqKind::Vec, bx(pr(U8)))]),
+        ),
+        (MetaType::new::<Ident<String>>(), d(IDENT, vec![pr(Str)])),
+        (
+            MetaType::new::<Ident<Box<u8>>>(),
+            d(IDENT, vec![Ty::Ptr(PtrKind::Box, bx(pr(U8)))]),
+        ),
+        (
+            MetaType::new::<Box<Ident<&'static str>>>(),
+            Ty::Ptr(PtrKind::Box, bx(d(IDENT, vec![Ty::Ptr(PtrKind::Ref, bx(Ty::StrSlice))]))),
+        ),
     ]
 }
 
@@ -578,15 +761,16 @@ pub fn real_registry(metas: &[MetaType]) -> PortableRegistry {
 
 /// Compares `lower(model)` with real scale-info for `rounds` random subsets/orders of roots.
 pub fn self_check(seed: u64, rounds: usize) -> Result<(), String> {
-    let all = roots();
     let defs = model_defs();
     for round in 0..rounds {
+        let name_style = if round % 4 == 3 { 1 } else { 0 };
+        let all = if name_style == 1 { roots_q() } else { roots() };
         let bytes: Vec<u8> = (0..64)
             .map(|i| (mix(&[seed, round as u64, i]) & 0xff) as u8)
             .collect();
         let mut t = Tape::new(&bytes);
         let mut picked: Vec<usize> = vec![];
-        if round == 0 {
+        if round == 0 || round == 3 {
             picked = (0..all.len()).collect();
         } else {
             let n = 1 + t.choose(all.len().min(8));
@@ -600,6 +784,7 @@ pub fn self_check(seed: u64, rounds: usize) -> Result<(), String> {
         let metas: Vec<MetaType> = picked.iter().map(|i| all[*i].0).collect();
         let real = real_registry(&metas);
         let prog = Program {
+            name_style,
             defs: defs.clone(),
             roots: picked.iter().map(|i| all[*i].1.clone()).collect(),
         };
